@@ -199,6 +199,16 @@ def run_schedule(case):
             for t in others:
                 if t.state != 'done':
                     sched.block(lambda t=t: t.state == 'done', 'join client')
+            # a runner whose statechart is final and which is not paused ends by itself
+            # (definitely not paused: every pause() had returned before the last unpause() began)
+            stopped = any(x[0] == 'op-call' and x[2] == 'stop' for x in log)
+            last_pause = max([k for k, x in enumerate(log) if x[2:3] == ('pause',)] or [-1])
+            last_unp = max([k for k, x in enumerate(log)
+                            if x[0] == 'op-call' and x[2] == 'unpause'] or [-1])
+            if interp.final and not stopped and (last_pause < 0 or last_unp > last_pause):
+                log.append(('op-call', 0, 'wait'))
+                runner.wait()
+                log.append(('op-return', 0, 'wait'))
             log.append(('op-call', 0, 'final-stop'))
             runner.stop()
             log.append(('op-return', 0, 'final-stop'))
@@ -248,6 +258,12 @@ def oracle(case):
             pause_raced = any(x[0] == 'op-call' and x[2] == 'pause' for x in log[first_stop:])
         in_stop = any(x[0] == 'op-call' and x[2] in ('stop', 'final-stop') for x in log) and not \
             any(x[0] == 'op-return' and x[2] == 'final-stop' for x in log)
+        in_wait = any(x[0] == 'op-call' and x[2] == 'wait' for x in log) and not \
+            any(x[0] == 'op-return' and x[2] == 'wait' for x in log)
+        if in_wait:
+            viol.append(V('runner-does-not-end-when-final', blocked=info, granularity=gran,
+                          tail=[list(map(str, x)) for x in log[-8:]]))
+            return finish(case, obs, viol, labels)
         viol.append(V('stop-never-returns' if in_stop else 'deadlock', blocked=info,
                       pause_raced_stop=pause_raced, granularity=gran,
                       tail=[list(map(str, x)) for x in log[-8:]]))
@@ -275,6 +291,8 @@ def oracle(case):
         if after:
             viol.append(V('executes-after-stop-returned', events=[list(map(str, x)) for x in
                                                                   after[:3]], granularity=gran))
+        if 'after_run' in names and names.index('after_run') > ret[0]:
+            viol.append(V('stop-returned-before-after_run', granularity=gran))
     alive = [x for x in log if x[0] == 'alive-after-stop']
     if alive and alive[-1][1]:
         viol.append(V('thread-alive-after-stop'))
